@@ -62,6 +62,7 @@ type Contract struct {
 	Requires   []*Clause
 	Ensures    []*Clause
 	Olds       []*OldBinding
+	Logicals   [][2]string // logical variables (name, type): the contract holds for every value of them
 	Loops      map[int]*LoopSpec
 	ModNothing bool
 	Modifies   []*Clause
@@ -339,6 +340,11 @@ func parseContractFile(rel, src string) (*pkgSpec, error) {
 				}
 				name, typ := splitWord(strings.TrimSpace(rest[:eq]))
 				cur.Olds = append(cur.Olds, &OldBinding{Name: name, Type: typ, Clause: &Clause{Text: strings.TrimSpace(rest[eq+1:]), Line: ln}})
+			case "logical":
+				// logical <name> <type>: a variable the old bindings, postconditions and
+				// loop invariants may mention; they hold for every value of it
+				n, t := splitWord(rest)
+				cur.Logicals = append(cur.Logicals, [2]string{n, t})
 			case "modifies":
 				if rest == "nothing" {
 					cur.ModNothing = true
@@ -853,6 +859,9 @@ func verif_fresh(p any) bool { return true }
 // execution of the function under contract (ghost; no run-time observer).
 func verif_freshslice[T any](s []T) bool { return true }
 
+// verif_arrayof(s): the backing array of s, as an object that a modifies clause can list.
+func verif_arrayof[T any](s []T) any { return nil }
+
 // verif_sameelems(a, b): a and b have the same length and the same elements in
 // the same order.
 func verif_sameelems[T comparable](a, b []T) bool {
@@ -936,18 +945,22 @@ var _ = verif_fresh
 			fmt.Fprintf(&body, "\n// %s %s line %d\nfunc %s(%s) %s {\n\treturn %s\n}\n", c.Key, "clause", cl.Line, name, params, ret, desugar(cl.Text))
 		}
 		var oldParams []string
+		plistP := plist // parameters only (preconditions, frames)
+		for _, lg := range c.Logicals {
+			plist = join(plist, lg[0]+" "+lg[1])
+		}
 		for j, o := range c.Olds {
 			emit(o.Clause, fmt.Sprintf("verif_%s_old%d", c.ID, j), plist, o.Type)
 			oldParams = append(oldParams, o.Name+" "+o.Type)
 		}
 		for k, cl := range c.Requires {
-			emit(cl, fmt.Sprintf("verif_%s_pre%d", c.ID, k), plist, "bool")
+			emit(cl, fmt.Sprintf("verif_%s_pre%d", c.ID, k), plistP, "bool")
 		}
 		for k, cl := range c.Ensures {
 			emit(cl, fmt.Sprintf("verif_%s_post%d", c.ID, k), join(plist, rlist, strings.Join(oldParams, ", ")), "bool")
 		}
 		if c.AllocExpr != nil {
-			emit(c.AllocExpr, fmt.Sprintf("verif_%s_alloc", c.ID), plist, "int")
+			emit(c.AllocExpr, fmt.Sprintf("verif_%s_alloc", c.ID), plistP, "int")
 		}
 		for k, cs := range c.Calls {
 			var as []string
@@ -961,12 +974,12 @@ var _ = verif_fresh
 		}
 		for k, cl := range c.Preserves {
 			cl.FnName = fmt.Sprintf("verif_%s_keep%d", c.ID, k)
-			fmt.Fprintf(&body, "\nfunc %s(%s) any {\n\treturn %s\n}\n", cl.FnName, plist, desugar(cl.Text))
+			fmt.Fprintf(&body, "\nfunc %s(%s) any {\n\treturn %s\n}\n", cl.FnName, plistP, desugar(cl.Text))
 		}
 		for k, cl := range c.Modifies {
 			// a modifies expression denotes an object (pointer); typed as any via a generic wrapper
 			cl.FnName = fmt.Sprintf("verif_%s_mod%d", c.ID, k)
-			fmt.Fprintf(&body, "\nfunc %s(%s) any {\n\treturn %s\n}\n", cl.FnName, plist, desugar(cl.Text))
+			fmt.Fprintf(&body, "\nfunc %s(%s) any {\n\treturn %s\n}\n", cl.FnName, plistP, desugar(cl.Text))
 		}
 		var ords []int
 		for k := range c.Loops {
